@@ -132,7 +132,7 @@ func (h *hist) candidates() []cand {
 	if len(pend) > 0 {
 		a := h.pick(pend)
 		p := h.somePerm(mgr)
-		cs = append(cs, cand{6, "accept", func() (*pendingOp, error) { return h.opAccept(mgr, a, p) }})
+		cs = append(cs, cand{14, "accept", func() (*pendingOp, error) { return h.opAccept(mgr, a, p) }})
 		cs = append(cs, cand{1, "decline", func() (*pendingOp, error) { return h.opDecline(mgr, a) }})
 		cs = append(cs, cand{1, "cancel-join", func() (*pendingOp, error) { return h.opCancel(a) }})
 	}
